@@ -10,8 +10,21 @@
 From RV Require Import Base.Bytes Model.KeySpace Model.TimerStore Model.TimerRegistry Proofs.C10_Spec.
 Open Scope N_scope.
 
+(* what the scripted handler of a real Operator saw (mode c10op with event batches > 1, checkpoints and crashes): every
+   event the handler processed has a sequence number and is marked with it in the keyed state of its key; [HSet] is a
+   keyed event whose handler result registered the timers [ts] for [key], [HFired] a TimerExpired event.  A call carries
+   the watermark of its request (TimerRegistry.watermark when the batch was processed). *)
+Inductive hev :=
+| HSet (seq : N) (key : bytes) (ts : list Z)
+| HFired (seq : N) (key : bytes) (t : Z).
+Definition hcall := (Z * list hev)%type.
+
 Inductive case :=
-| TC (count start size cache : N) (srids : list N) (ops : list op) (observed : list (list (bytes * Z))).
+| TC (count start size cache : N) (srids : list N) (ops : list op) (observed : list (list (bytes * Z)))
+(* [pre]: the handler calls of all incarnations before the last crash; [marks]: the sequence numbers found in the keyed
+   state right after the last restore (= the events whose effects are part of the checkpoint restored from); [post]: the
+   calls after the last restore, up to a final flush; [wfinal]: the composite watermark at the end *)
+| TB (pre : list hcall) (marks : list N) (post : list hcall) (wfinal : Z).
 
 (* ---------- comparing outputs: ties among equal timestamps as multisets ---------- *)
 Definition fired_leb (a b : fired) : bool :=
@@ -75,8 +88,40 @@ Fixpoint dedup (l : list N) : list N :=
   | x :: l' => if existsb (N.eqb x) l' then dedup l' else x :: dedup l'
   end.
 
+(* ---------- the recovered timeline seen by the handler against the pending-set specification ----------
+   The recovered timeline = the pre-crash events that are part of the restored checkpoint, then everything after the
+   restore.  Along it: a delivered TimerExpired must be a pending timer that is due (else 11) and leaves the pending set;
+   a timer the handler registers is pending iff it is later than the request's watermark ([sp_add]: once); at the end no
+   pending timer may be at or before the final watermark (else 12: its expiry was never delivered to the handler in the
+   recovered timeline). *)
+Definition hev_seq (e : hev) : N := match e with HSet s _ _ => s | HFired s _ _ => s end.
+Definition keep_marked (marks : list N) (c : hcall) : hcall :=
+  (fst c, filter (fun e => existsb (N.eqb (hev_seq e)) marks) (snd c)).
+Fixpoint remove_fired (x : fired) (l : list fired) : list fired :=
+  match l with
+  | [] => []
+  | y :: l' => if fired_eqb x y then l' else y :: remove_fired x l'
+  end.
+Definition tl_call (c : hcall) (st : list fired * list N) : list fired * list N :=
+  let w := fst c in
+  let st1 := fold_left (fun st e => match e with
+                                    | HFired _ k t =>
+                                        if existsb (fired_eqb (k, t)) (fst st) && (t <=? w)%Z
+                                        then (remove_fired (k, t) (fst st), snd st)
+                                        else (fst st, 11 :: snd st)
+                                    | _ => st
+                                    end) (snd c) st in
+  fold_left (fun st e => match e with
+                         | HSet _ k ts => (fold_left (fun P t => if (w <? t)%Z then sp_add (k, t) P else P) ts (fst st), snd st)
+                         | _ => st
+                         end) (snd c) st1.
+Definition tl_check (pre : list hcall) (marks : list N) (post : list hcall) (wfinal : Z) : list N :=
+  let '(P, codes) := fold_left (fun st c => tl_call c st) (map (keep_marked marks) pre ++ post) ([], []) in
+  codes ++ (if existsb (is_due wfinal) P then [12] else []).
+
 Definition check_case (c : case) : list N :=
   match c with
+  | TB pre marks post wfinal => dedup (tl_check pre marks post wfinal)
   | TC count start size cache srids ops observed =>
       let tbl := kg_table count ops in
       let cfg := {| cf_q := quirks_now; cf_kgf := kg_lookup tbl; cf_start := start; cf_size := size;
